@@ -9,9 +9,10 @@ From CE Require Model.Rules.
 Open Scope N_scope.
 
 (* 1. Data round trip on the fragment [c01_body body nbody] (CbeRoundtrip section 6; nbody is what
-   the decoder reports): every scalar kind except times and finite big floats (integers of all four
-   event forms and any size up to 1024 bytes, all float bit patterns, decimal floats, big decimals,
-   NaN, UID), booleans / null / containers / padding / comments, markers, references, records and
+   the decoder reports): every scalar kind except times and big floats that are not exactly a float64 (integers
+   of all four event forms and any size up to 1024 bytes, all float bit patterns, big floats that
+   are exactly a non-zero float64 - given with an odd mantissa, as the harness prints them -,
+   decimal floats, big decimals, NaN, UID), booleans / null / containers / padding / comments, markers, references, records and
    record types, whole and string-like arrays of the sixteen array types, media and custom binary —
    and arrays, media and custom binary through begin / chunk / data with ANY chunking and any split
    of the data over data events.  The document decodes, to exactly [document 0 nbody], and that
